@@ -50,6 +50,26 @@ MISSED = {
  "C19-m5": "every guard was exercised on a fresh function; added a reused @expandable function called with a limit and then with every equal-valued limit of another type",
  "C19-m6": "(caught, but as a crash of the runner: NumPy scalars in the answer) the runner now serialises foreign values as NONJSON markers, which never equal an expected answer",
  "C15-m6": "H(n) shorthands were not part of the operation vocabulary; added H(n) for the same n as int / float / Fraction / bool / numpy.int8",
+ "C03-m1": "(regression of the generator: caught when it arrived, missed after the pool generator changed) added the selection class 'every position, unequally often, item count a multiple of n' + corpus entries",
+ "C05-m8": "unequal pairs never had colliding hashes; added unequal histograms whose items hash alike in CPython",
+ "C10-m7": "histograms were built from mappings; added construction from bare outcomes mixed with pairs (stored order not ascending); the model is run on the stored order",
+ "C10-m8": "reproducibility was only tried with random.Random(12345); added the NumPy-backed generator installed afresh and re-seeded in place with 0 / 12345 / [0] / False",
+ "C18-m7": "mappings of amounts were dicts; added H, MappingProxyType, UserDict, ChainMap, Counter and OrderedDict requests",
+ "C01-m7": "counts were Python ints; added operands whose counts are numpy.int64 just above 2**32 (products leave the 64-bit range)",
+ "C01-m8": "outcomes were never bools; added bool-valued histograms under every unary and several binary operators",
+ "C09-m8": "n and k were Python ints; added float / Fraction / numpy.int8 / numpy.int64 / bool arguments (answers must be exact Python ints)",
+ "C04-m7": "repetition counts stopped at 12 (quick); added 15..17, 31..33, 48, 64 on small dice",
+ "C12-m7": "expansions returned the same object or a different value; added expansions returning a NEW outcome with an equal value + corpus entries",
+ "C08-m8": "the single-face special case rarely met a float limit together with a finite inf; added that family under every predicate",
+ "C11-m8": "no bitwise operator in the roller vocabulary; added & | ^ (roller-roller, roller-scalar, scalar-roller, map)",
+ "C13-m7": "every enumeration was consumed completely; added abandoned enumerations (peeking at 1-3 rolls) before the same question",
+ "C16-m7": "statistics were asked of fresh objects; added format() / variance(mu) / stdev(mu) histories on one object before the plain questions (type-exact comparison)",
+ "C07-m7": "callbacks never caught exceptions; the MODEL was extended with try/except terms (RTry, proofs in EvalP/LimitsP) and mechanics now protect a nested evaluation that fails one level further down and fall back to another nested call",
+ "C19-m7": "None-valued outcomes were only constructed; added re-parenting of tombstones with adopt() (outcome and roll, every mode)",
+ "C19-m8": "within() bounds were only validated on a non-empty histogram; added empty / zero-total receivers and operands, pools",
+ "C02-m8": "rolls were compared by value; added float / Fraction twins of integer pools enumerated next to them and the outcome types of the rolls",
+ "C15-m7": "draws only removed existing cards; added non-positive amounts for outcomes the histogram does not have, visited first, also inside failing requests",
+ "C15-m8": "no two population members were equal with different outcome types; added re-typed copies (float / Fraction / bool) and comparisons, hashing and grouping across the whole population",
  "C16-m3": "histograms were built from mappings only; added construction from reversed pairs and from bare outcomes mixed with pairs (stored order not ascending)",
 }
 
